@@ -726,6 +726,7 @@ func CheckC13(tier string, seed uint64, rep *core.Reporter) (*core.Evidence, err
 			if fi < walkFams {
 				runs = append(runs, st.walkRuns(f, m.Calls)...)
 			}
+			runs = append(runs, st.directedRuns(f)...)
 			for ri := 0; ri < runsPerFam; ri++ {
 				runs = append(runs, st.randomRun(f, ri, ncalls, writeCalls))
 			}
@@ -1041,4 +1042,35 @@ func DebugFamily(seed uint64, idx, n int) error {
 	}
 	fmt.Println("distinct outputs:", seen)
 	return nil
+}
+
+// directedRuns are the plainest histories, run for every family: a successful
+// generation, an edit of the sources (switch to another variant) and a second
+// generation without --report; and a successful generation, a tool that
+// mangles the generated files, and a regeneration.
+func (st *c13State) directedRuns(f *family) []*Run {
+	var runs []*Run
+	mk := func(id string, ops ...Op) {
+		run := &Run{ID: fmt.Sprintf("%d-d%s", f.idx, id), DirName: "proj", Variants: map[string]*Variant{}, Ops: ops}
+		for _, v := range f.variants {
+			run.Variants[v.Name] = v
+		}
+		runs = append(runs, run)
+	}
+	v0 := f.variants[0].Name
+	first := Op{Kind: "Gen", Variant: v0, Binary: "sim", Map: MapCfg{Mode: "asc"}, Cwd: "dot"}
+	for k, v := range f.variants[1:] {
+		bin := "sim"
+		if k%2 == 1 {
+			bin = "plain"
+		}
+		mk(fmt.Sprintf("edit%d", k), first, Op{Kind: "Gen", Variant: v.Name, Binary: bin, Map: MapCfg{Mode: "desc"}, Cwd: "rel"})
+		mk(fmt.Sprintf("editback%d", k), Op{Kind: "Gen", Variant: v.Name, Binary: "sim", Map: MapCfg{Mode: "asc"}, Cwd: "dot"},
+			Op{Kind: "Gen", Variant: v0, Binary: "sim", Map: MapCfg{Mode: "rotate", Seed: 7}, Cwd: "dot"})
+	}
+	if f.idx%2 == 0 {
+		kind := []string{"crlf", "bom", "trailing-blanks"}[(f.idx/2)%3]
+		mk("mangle", first, Op{Kind: "MangleGen", File: kind}, Op{Kind: "Gen", Variant: v0, Binary: "sim", Map: MapCfg{Mode: "desc"}, Cwd: "dot"})
+	}
+	return runs
 }
